@@ -74,6 +74,21 @@ def summaries(prog, max_reads):
                 outs.append((s, Unit()))
         return outs
 
+    @reg(r'^<InputBuffer as Buf>::remaining$|^InputBuffer::len$')
+    def remaining(ex, st, fn, argv):
+        b = deref(ex, st, argv[0])
+        return [(st, Int(b.avail, 64, False))]
+
+    @reg(r'^<InputBuffer as Buf>::has_remaining$')
+    def has_remaining(ex, st, fn, argv):
+        b = deref(ex, st, argv[0])
+        return [(st, Bool(b.avail != 0))]
+
+    @reg(r'^InputBuffer::is_empty$')
+    def in_is_empty(ex, st, fn, argv):
+        b = deref(ex, st, argv[0])
+        return [(st, Bool(b.avail == 0))]
+
     @reg(r'^InputBuffer::prepare_reserve$')
     def prepare(ex, st, fn, argv):
         return [(st, Agg({0: argv[0], 1: argv[1]}, 'DoRead'))]
@@ -184,6 +199,9 @@ def body(ctx):
     total = 0
     for k in (1, 2):
         total += iterations(ctx, prog, k, viol)
+    # true inductive step: one / two iterations from the loop head with an arbitrary number of bytes already read in this call
+    for k in (1, 2):
+        total += iterations(ctx, prog, k, viol, from_head=True)
     ctx.extra['paths'] = total
     wrapper(ctx, prog, viol)
     propagate(ctx, prog)
@@ -199,8 +217,17 @@ def body(ctx):
                    inject_into='src/frame_buffer.rs', profiles=('dev',), hang_is_violation=True, panic_is_violation=True)
 
 
-def iterations(ctx, prog, k, viol):
-    """run k iterations of the loop in Inner::read_from from an arbitrary buffer state; cut at the (k+1)-th loop entry"""
+def find_read_loop_head(f):
+    """the loop body starts with `let bytes = self.buf.chunk()`"""
+    heads = [bid for bid, bb in f.blocks.items() if bb.term.kind == 'call' and re.search(r'Buf>::chunk$', bb.term.data['fn'])]
+    if len(heads) != 1:
+        raise Unsupported(f"cannot locate the head of the read loop in {f.name} ({heads})")
+    return heads[0]
+
+
+def iterations(ctx, prog, k, viol, from_head=False):
+    """run k iterations of the loop in Inner::read_from from an arbitrary buffer state; cut at the (k+1)-th loop entry.
+    from_head: start at the loop head with a symbolic `bytes_read` (any earlier iterations of the same call)"""
     _MEMO.clear()
     ex = io_executor(ctx, prog, unwind=k + 2, extra=summaries(prog, k + 1) + [(r'ResultExt<.*>>::context::<', ctx_stub)])
     f = prog.method('Inner', 'read_from')
@@ -211,7 +238,14 @@ def iterations(ctx, prog, k, viol):
     st.pc += [z3.ULE(c0, 1 << 40), z3.ULE(avail0, 1 << 33)]
     inner = Agg({names.index('buf'): InBuf(c0, avail0), names.index('phantom'): Unit()}, 'frame_buffer::Inner', 'fbinner')
     st.roots['fb'] = Cell(inner, 'fb')
-    res = ex.run(st, f, [Ref(st.roots['fb']), Ref(Cell(Unit(), 'stream')), FnItem('verif_handler')], bind={'Kind': 'AmqpFrameKind', 'S': 'VerifStream', 'F': 'VerifHandler'})
+    br0 = b64(0)
+    kw = {}
+    if from_head:
+        br0 = z3.BitVec('bytes_read.before', 64)
+        st.pc.append(z3.ULE(br0, 1 << 40))
+        kw = dict(start_bb=find_read_loop_head(f), locals_by_name={'bytes_read': Int(br0, 64, False)})
+    res = ex.run(st, f, [Ref(st.roots['fb']), Ref(Cell(Unit(), 'stream')), FnItem('verif_handler')], bind={'Kind': 'AmqpFrameKind', 'S': 'VerifStream', 'F': 'VerifHandler'}, **kw)
+    tagk = f"h{k}" if from_head else f"k{k}"
     n = 0
     for (s, rv) in res:
         n += 1
@@ -221,7 +255,7 @@ def iterations(ctx, prog, k, viol):
         conds = []
         # replay the trace against the reference reading of the stream
         pos, avail = c0, avail0
-        nread = b64(0)
+        nread = br0
         pending = lambda p, a: z3.And(z3.UGE(a, 7), z3.UGE(a, size_at(p)))
         for t in tr:
             if t[0] == 'pre-read':
@@ -266,12 +300,12 @@ def iterations(ctx, prog, k, viol):
         else:
             conds = [z3.BoolVal(False)]
             label = out
-        m = ctx.decide(f"c06.k{k}#{n}:{label}", s.pc, z3.And(*conds),
-                       group=f'{k} loop iteration(s) from any buffer state: a frame is handed on iff the next complete range (sized by its own length field) is buffered and parses fully, before any further read; reads only when no complete frame is pending; WouldBlock => Ok(bytes read so far); EOF / I/O error / unparsable range / handler error => that error',
+        m = ctx.decide(f"c06.{tagk}#{n}:{label}", s.pc, z3.And(*conds),
+                       group=f'{k} loop iteration(s) from {"the loop head with any number of bytes already read" if from_head else "function entry with"} any buffer state: a frame is handed on iff the next complete range (sized by its own length field) is buffered and parses fully, before any further read; reads only when no complete frame is pending; WouldBlock => Ok(bytes read so far); EOF / I/O error / unparsable range / handler error => that error',
                        sample={'iterations': k, 'events': kinds, 'result': label})
         if m is not None:
-            viol.append((k, label, kinds, ctx.explain(m, conds)))
-    ctx.twin(f'c06.twin.k{k}: no iteration ever hands on a frame', [], z3.BoolVal(not any('frame' in [t[0] for t in s.trace] for (s, _) in res)))
+            viol.append((tagk, label, kinds, ctx.explain(m, conds)))
+    ctx.twin(f'c06.twin.{tagk}: no iteration ever hands on a frame', [], z3.BoolVal(not any('frame' in [t[0] for t in s.trace] for (s, _) in res)))
     return n
 
 
